@@ -52,6 +52,10 @@ func (c *Ctx) lexerExploration() {
 
 func init() {
 	Checks["C03"] = func(c *Ctx) { c.lexerExploration() }
-	Checks["C04"] = func(c *Ctx) { c.lexerExploration() }
+	Checks["C04"] = func(c *Ctx) {
+		c.lexerExploration()
+		c.treePositionSweep()
+		c.Ev.Rule += " Tree and error positions: every Position of parse trees (both grammars, multi-file schema loads) and every location of syntax, load and validation errors must be the offset/line/column of a token start of the file it names, as computed by the position specification; inputs re-rendered with CR/CRLF/LF, BOM, comma, comment (multi-byte) trivia."
+	}
 }
 
